@@ -7,6 +7,7 @@ import (
 	"errors"
 	"fmt"
 	"os"
+	"sort"
 	"strconv"
 	"strings"
 	"sync"
@@ -15,6 +16,7 @@ import (
 	"github.com/hashicorp/go-hclog"
 
 	"github.com/hashicorp/consul/acl"
+	"github.com/hashicorp/consul/acl/resolver"
 	"github.com/hashicorp/consul/agent/consul"
 	"github.com/hashicorp/consul/agent/consul/fsm"
 	"github.com/hashicorp/consul/agent/consul/state"
@@ -28,6 +30,15 @@ import (
 // unit boundaries (tick 8e) and the cache TTL is k units and a half (tick 8k+4), so every comparison
 // the code makes (ExpirationTime.Before(now), Age() <= TTL) has a margin of >= 24 ms on either side.
 // A case whose timing bracket fails is re-run from scratch.
+//
+// Three kinds of resolver:
+//   remote  a client agent's / secondary's view: fake backend, identities (and the role / policy links
+//           of a token) come from the primary by scripted RPC answers, identity cache in play;
+//           ResolveToken, ResolveTokenAndDefaultMeta, resolveTokenToIdentityAndPolicies / …AndRoles
+//           with their retry loops
+//   server  primary-DC server over a real state store (expired tokens not yet reaped)
+//   raft    the same with a real single-voter in-memory Raft: ACL.TokenRead, ACL.TokenList and the
+//           token reaper run unmodified
 const (
 	unit     = 80 * time.Millisecond
 	window   = 16 * time.Millisecond
@@ -37,9 +48,14 @@ const (
 const (
 	anonAccessor = "00000000-0000-0000-0000-000000000002"
 	anonSecret   = "anonymous"
+	mgmtAccessor = "aaaaaaaa-0000-0000-0000-00000000000f"
+	mgmtSecret   = "mgmt"
+	mgmtPolicyID = "bbbbbbbb-0000-0000-0000-000000000001"
 )
 
-var accOf = map[string]string{"s1": "aaaaaaaa-0000-0000-0000-000000000001", "s2": "aaaaaaaa-0000-0000-0000-000000000002"}
+var accOf = map[string]string{"s1": "aaaaaaaa-0000-0000-0000-000000000001", "s2": "aaaaaaaa-0000-0000-0000-000000000002",
+	"s3": "aaaaaaaa-0000-0000-0000-000000000003", "s4": "aaaaaaaa-0000-0000-0000-000000000004",
+	anonSecret: anonAccessor, mgmtSecret: mgmtAccessor}
 
 var grantNames = []string{"web", "db", "api"}
 
@@ -72,42 +88,81 @@ type xtoken struct {
 	secret, accessor string
 	exp              expT
 	grants           []string
+	link             int // 0 service identities, 1 a policy link, 2 a role link (remote mode only)
 }
 
 func (t xtoken) enc() string {
-	return hx.EncS(t.secret) + " " + hx.EncS(t.accessor) + " " + t.exp.tick() + " " + hx.EncSList(t.grants)
+	return hx.EncS(t.secret) + " " + hx.EncS(t.accessor) + " " + t.exp.tick() + " " + hx.EncSList(t.grants) + " " + strconv.Itoa(t.link)
+}
+func (t xtoken) encRound() string {
+	return hx.EncS(t.secret) + ";" + hx.EncS(t.accessor) + ";" + t.exp.tick() + ";" + join("|", mapS(t.grants, hx.EncS)) + ";" + strconv.Itoa(t.link)
+}
+func linkID(prefix string, grants []string) string { return prefix + strings.Join(grants, "+") }
+func grantsOfID(id string) []string {
+	id = id[2:]
+	if id == "" {
+		return nil
+	}
+	return strings.Split(id, "+")
 }
 func (t xtoken) build(t0 time.Time) *structs.ACLToken {
 	tok := &structs.ACLToken{AccessorID: t.accessor, SecretID: t.secret, ExpirationTime: t.exp.time(t0)}
-	for _, g := range t.grants {
-		tok.ServiceIdentities = append(tok.ServiceIdentities, &structs.ACLServiceIdentity{ServiceName: g})
+	switch t.link {
+	case 1:
+		tok.Policies = []structs.ACLTokenPolicyLink{{ID: linkID("p-", t.grants)}}
+	case 2:
+		tok.Roles = []structs.ACLTokenRoleLink{{ID: linkID("r-", t.grants)}}
+	default:
+		for _, g := range t.grants {
+			tok.ServiceIdentities = append(tok.ServiceIdentities, &structs.ACLServiceIdentity{ServiceName: g})
+		}
 	}
 	return tok
 }
 
+type xround struct {
+	rpc   string // found foreign notfound error
+	tok   xtoken
+	nfErr bool
+	link  string // ok notfound denied error
+}
+
+func (r xround) enc() string {
+	if r.rpc == "found" {
+		return "found;" + r.tok.encRound() + ";" + r.link
+	}
+	return r.rpc + ";" + r.link
+}
+
 type xop struct {
-	kind   string // put del res mask
+	kind   string // put del res mask read list reap
 	unit   int
-	tok    xtoken // put, or the token an RPC "found" answers with
+	tok    xtoken // put
 	secret string
-	rpc    string // found foreign notfound error (remote mode)
-	nfErr  bool   // notfound reported as error rather than as empty reply
+	ep     string   // res: t p r
+	meta   bool     // res t: through ResolveTokenAndDefaultMeta
+	rounds []xround // remote mode (res: 5 rounds; mask: 1 round)
 	flag   bool
 }
 
 type xcase struct {
-	server bool
-	ttlK   int
-	down   string
-	ops    []xop
+	mode string // remote server raft
+	ttlK int
+	down string
+	ops  []xop
 }
 
-// fakeBackend: a client agent's view — nothing local, identities come from the primary by RPC.
+func (c *xcase) server() bool { return c.mode != "remote" }
+
+// fakeBackend: a client agent's view — nothing local; identities, roles and policies come from the
+// primary by RPC. The answers are scripted per loop round: round k is the one in which the k-th
+// link RPC (ACL.PolicyResolve / ACL.RoleResolve) is made.
 type fakeBackend struct {
-	mu  sync.Mutex
-	op  *xop
-	t0  time.Time
-	rpc int
+	mu        sync.Mutex
+	rounds    []xround
+	linkCalls int
+	t0        time.Time
+	bad       string
 }
 
 func (b *fakeBackend) ACLDatacenter() string { return "dc1" }
@@ -115,35 +170,85 @@ func (b *fakeBackend) ResolveIdentityFromToken(string) (bool, structs.ACLIdentit
 	return false, nil, nil
 }
 func (b *fakeBackend) ResolvePolicyFromID(string) (bool, *structs.ACLPolicy, error) {
-	return true, nil, acl.ErrNotFound
+	return false, nil, nil
 }
 func (b *fakeBackend) ResolveRoleFromID(string) (bool, *structs.ACLRole, error) {
-	return true, nil, acl.ErrNotFound
+	return false, nil, nil
 }
 func (b *fakeBackend) IsServerManagementToken(string) bool { return false }
-func (b *fakeBackend) RPC(_ context.Context, method string, _ interface{}, reply interface{}) error {
+
+func linkErr(ans string) error {
+	switch ans {
+	case "notfound":
+		return acl.ErrNotFound
+	case "denied":
+		return acl.ErrPermissionDenied
+	case "error":
+		return errors.New("connection refused")
+	}
+	return nil
+}
+
+func (b *fakeBackend) RPC(_ context.Context, method string, args interface{}, reply interface{}) error {
 	b.mu.Lock()
 	defer b.mu.Unlock()
-	b.rpc++
-	if method != "ACL.TokenRead" {
-		return fmt.Errorf("unexpected RPC %s", method)
+	if b.linkCalls >= len(b.rounds) {
+		b.bad = "more rounds than scripted"
+		return errors.New("script exhausted")
 	}
-	resp := reply.(*structs.ACLTokenResponse)
-	switch b.op.rpc {
-	case "found":
-		resp.Token, resp.SourceDatacenter = b.op.tok.build(b.t0), "dc1"
+	rd := b.rounds[b.linkCalls]
+	switch method {
+	case "ACL.TokenRead":
+		resp := reply.(*structs.ACLTokenResponse)
+		switch rd.rpc {
+		case "found":
+			resp.Token, resp.SourceDatacenter = rd.tok.build(b.t0), "dc1"
+			return nil
+		case "foreign":
+			resp.Token, resp.SourceDatacenter = rd.tok.build(b.t0), "dc2"
+			resp.Token.Local = true
+			return nil
+		case "notfound":
+			if rd.nfErr {
+				return acl.ErrNotFound
+			}
+			return nil
+		}
+		return errors.New("connection refused")
+	case "ACL.PolicyResolve":
+		b.linkCalls++
+		if err := linkErr(rd.link); err != nil {
+			return err
+		}
+		resp := reply.(*structs.ACLPolicyBatchResponse)
+		for _, id := range args.(*structs.ACLPolicyBatchGetRequest).PolicyIDs {
+			var rules strings.Builder
+			for _, g := range grantsOfID(id) {
+				fmt.Fprintf(&rules, "service %q { policy = \"write\" }\n", g)
+			}
+			p := &structs.ACLPolicy{ID: id, Name: id, Rules: rules.String()}
+			p.SetHash(true)
+			resp.Policies = append(resp.Policies, p)
+		}
 		return nil
-	case "foreign":
-		resp.Token, resp.SourceDatacenter = b.op.tok.build(b.t0), "dc2"
-		resp.Token.Local = true
-		return nil
-	case "notfound":
-		if b.op.nfErr {
-			return acl.ErrNotFound
+	case "ACL.RoleResolve":
+		b.linkCalls++
+		if err := linkErr(rd.link); err != nil {
+			return err
+		}
+		resp := reply.(*structs.ACLRoleBatchResponse)
+		for _, id := range args.(*structs.ACLRoleBatchGetRequest).RoleIDs {
+			ro := &structs.ACLRole{ID: id, Name: id}
+			for _, g := range grantsOfID(id) {
+				ro.ServiceIdentities = append(ro.ServiceIdentities, &structs.ACLServiceIdentity{ServiceName: g})
+			}
+			ro.SetHash(true)
+			resp.Roles = append(resp.Roles, ro)
 		}
 		return nil
 	}
-	return errors.New("connection refused")
+	b.bad = "unexpected RPC " + method
+	return errors.New(b.bad)
 }
 
 func genExp(r *hx.RNG) expT {
@@ -166,38 +271,85 @@ func genGrants(r *hx.RNG) []string {
 	return g
 }
 
-func genXCase(r *hx.RNG) *xcase {
-	c := &xcase{server: r.Chance(40), ttlK: hx.Pick(r, []int{0, 1, 1, 2, 100}),
-		down: hx.Pick(r, []string{"allow", "deny", "extend-cache", "extend-cache", "async-cache"})}
-	pool := map[string]xtoken{
-		"s1":       {"s1", accOf["s1"], genExp(r), genGrants(r)},
-		"s2":       {"s2", accOf["s2"], genExp(r), genGrants(r)},
-		anonSecret: {anonSecret, anonAccessor, expT{kind: 0}, genGrants(r)},
+func genRound(r *hx.RNG, t xtoken, links, linkErrors bool) xround {
+	rd := xround{rpc: hx.Pick(r, []string{"found", "found", "found", "found", "found", "notfound", "notfound", "error", "error", "error", "foreign"}),
+		tok: t, nfErr: r.Bool(), link: "ok"}
+	if links {
+		rd.link = hx.Pick(r, []string{"ok", "ok", "ok", "denied", "denied", "denied", "denied", "notfound", "error"})
+		if rd.link == "error" && !linkErrors {
+			rd.link = "denied"
+		}
+		if r.Chance(50) {
+			rd.rpc = "found"
+		}
 	}
-	if r.Chance(10) {
+	return rd
+}
+
+func genXCase(r *hx.RNG, mode string) *xcase {
+	c := &xcase{mode: mode, ttlK: hx.Pick(r, []int{0, 1, 1, 2, 100}),
+		down: hx.Pick(r, []string{"allow", "deny", "extend-cache", "extend-cache", "async-cache"})}
+	// role / policy links are followed by RPC only in remote mode; their cache-assisted variants
+	// (extend-cache / async-cache reuse of expired link entries) are C08's subject: link answers are
+	// generated only where the outcome does not depend on the link caches
+	// (a link answer "error" only without extend-cache; no links at all with async-cache, which answers
+	// from expired link entries without waiting)
+	links := mode == "remote" && c.down != "async-cache" && r.Chance(75)
+	linkErrors := c.down == "allow" || c.down == "deny"
+	genLink := func() int {
+		if links && r.Chance(65) {
+			return 1 + r.Intn(2)
+		}
+		return 0
+	}
+	pool := map[string]xtoken{
+		"s1":       {"s1", accOf["s1"], genExp(r), genGrants(r), genLink()},
+		"s2":       {"s2", accOf["s2"], genExp(r), genGrants(r), genLink()},
+		"s3":       {"s3", accOf["s3"], genExp(r), genGrants(r), 0},
+		"s4":       {"s4", accOf["s4"], genExp(r), genGrants(r), 0},
+		anonSecret: {anonSecret, anonAccessor, expT{kind: 0}, genGrants(r), 0},
+	}
+	if r.Chance(10) && mode != "raft" { // (the builtin anonymous token cannot be given an expiration through the API; the reaper could not delete it)
 		t := pool[anonSecret]
 		t.exp = genExp(r)
 		pool[anonSecret] = t
 	}
 	secrets := []string{"s1", "s1", "s1", "s2", "s2", anonSecret}
+	if mode == "raft" {
+		secrets = []string{"s1", "s2", "s3", "s4"}
+	}
 	u := 0
-	if c.server {
+	if c.server() {
 		c.ops = append(c.ops, xop{kind: "put", tok: pool[anonSecret]})
-		c.ops = append(c.ops, xop{kind: "put", tok: pool["s1"]})
-		if r.Bool() {
-			c.ops = append(c.ops, xop{kind: "put", tok: pool["s2"]})
+		if mode == "raft" {
+			c.ops = append(c.ops, xop{kind: "put", tok: xtoken{mgmtSecret, mgmtAccessor, expT{kind: 0}, nil, 0}})
+			for _, s := range []string{"s1", "s2", "s3", "s4"} {
+				if r.Chance(75) {
+					c.ops = append(c.ops, xop{kind: "put", tok: pool[s]})
+				}
+			}
+		} else {
+			c.ops = append(c.ops, xop{kind: "put", tok: pool["s1"]})
+			if r.Bool() {
+				c.ops = append(c.ops, xop{kind: "put", tok: pool["s2"]})
+			}
 		}
 	}
-	present := map[string]bool{anonSecret: true}
 	for n := 3 + r.Intn(5); n > 0; n-- {
 		if r.Chance(55) && u < 5 {
 			u += 1 + r.Intn(2)
 		}
 		s := hx.Pick(r, secrets)
-		op := xop{unit: u, secret: s, flag: !r.Chance(15)}
+		op := xop{unit: u, secret: s, flag: !r.Chance(15), ep: "t", meta: r.Bool()}
 		x := r.Intn(100)
 		switch {
-		case c.server && x < 25:
+		case mode == "raft" && x < 20:
+			op.kind = "reap"
+		case mode == "raft" && x < 40:
+			op.kind = "list"
+		case mode == "raft" && x < 60:
+			op.kind = "read"
+		case c.server() && x < 75 && mode == "raft" || c.server() && x < 25:
 			t := pool[s]
 			if r.Chance(50) {
 				t.exp = genExp(r)
@@ -207,30 +359,42 @@ func genXCase(r *hx.RNG) *xcase {
 			}
 			pool[s] = t
 			op.kind, op.tok = "put", t
-		case c.server && x < 35 && s != anonSecret:
+		case c.server() && x < 35 && s != anonSecret:
 			op.kind = "del"
-		case x < 85:
+		case x < 85 || mode == "raft":
 			op.kind = "res"
+			if y := r.Intn(100); y < 20 {
+				op.ep = "p"
+			} else if y < 40 {
+				op.ep = "r"
+			}
 		default:
 			op.kind = "mask"
 			if r.Chance(25) {
 				op.secret = ""
 			}
 		}
-		if !c.server && (op.kind == "res" || op.kind == "mask") {
-			op.rpc = hx.Pick(r, []string{"found", "found", "found", "found", "found", "notfound", "notfound", "error", "error", "error", "foreign"})
-			if op.secret == "" {
-				op.rpc = "found"
-			}
+		if mode == "remote" && (op.kind == "res" || op.kind == "mask") {
 			t := pool[s]
 			if r.Chance(30) {
 				t.exp = genExp(r)
 				pool[s] = t
 			}
-			op.tok = t
-			op.nfErr = r.Bool()
+			nr := 5
+			if op.kind == "mask" {
+				nr = 1
+			}
+			for k := 0; k < nr; k++ {
+				rd := genRound(r, t, links && t.link != 0, linkErrors)
+				if op.secret == "" || k > 0 && r.Chance(70) {
+					rd.rpc = "found"
+				}
+				if k > 0 && r.Chance(25) { // the token changed at the primary between rounds
+					rd.tok.exp = genExp(r)
+				}
+				op.rounds = append(op.rounds, rd)
+			}
 		}
-		_ = present
 		c.ops = append(c.ops, op)
 	}
 	return c
@@ -251,13 +415,6 @@ func newFSM() *fsm.FSM {
 	})
 }
 
-func modeName(server bool) string {
-	if server {
-		return "server"
-	}
-	return "remote"
-}
-
 type xenv struct {
 	env *consul.VerifACLEnv
 	f   *fsm.FSM
@@ -271,50 +428,94 @@ func prepareX(c *xcase) *xenv {
 		ACLPolicyTTL: 30 * time.Second, ACLRoleTTL: 30 * time.Second, ACLTokenTTL: ttl,
 		ACLDownPolicy: c.down, ACLDefaultPolicy: "deny"}
 	x := &xenv{}
-	var backend consul.ACLResolverBackend
-	if c.server {
-		x.f = newFSM()
-	} else {
+	var err error
+	switch c.mode {
+	case "remote":
+		// links are re-fetched on every resolution: their outcome is the scripted answer alone
+		settings.ACLPolicyTTL, settings.ACLRoleTTL = 0, 0
 		x.fb = &fakeBackend{}
-		backend = x.fb
+		x.env, err = consul.VerifNewACLEnv(nil, x.fb, settings)
+	case "server":
+		x.f = newFSM()
+		x.env, err = consul.VerifNewACLEnv(x.f, nil, settings)
+	case "raft":
+		x.f = newFSM()
+		x.env, err = consul.VerifNewACLRaftEnv(x.f, settings)
+		if err == nil {
+			err = x.f.State().ACLPolicySet(5, &structs.ACLPolicy{ID: mgmtPolicyID, Name: "mgmt", Rules: `acl = "write"`})
+		}
 	}
-	env, err := consul.VerifNewACLEnv(x.f, backend, settings)
 	if err != nil {
 		panic(err)
 	}
-	x.env = env
 	return x
 }
+
+func (x *xenv) close() {
+	if x != nil && x.env != nil {
+		x.env.Shutdown()
+	}
+}
+
+func storedAccessors(st *state.Store) map[string]*structs.ACLToken {
+	_, toks, err := st.ACLTokenList(nil, true, true, "", "", "", nil, nil)
+	if err != nil {
+		panic(err)
+	}
+	m := map[string]*structs.ACLToken{}
+	for _, t := range toks {
+		m[t.AccessorID] = t
+	}
+	return m
+}
+
+func expiredBefore(t *time.Time, at time.Time) bool { return t != nil && !t.IsZero() && t.Before(at) }
 
 // runXCase executes one sequence on its fresh resolver along the time line starting at t0.
 // ok=false: a timing bracket failed.
 func runXCase(c *xcase, x *xenv, t0 time.Time) (res xresult) {
 	env, f, fb := x.env, x.f, x.fb
 	emit := func(op, out string) { res.lines = append(res.lines, [2]string{op, out}) }
-	emit(fmt.Sprintf("x-begin %s %d %s", hx.EncBool(c.server), 8*c.ttlK+4, c.down), "ok")
+	viol := func(sig, desc string) { res.viol = append(res.viol, [2]string{sig, desc}) }
+	emit(fmt.Sprintf("x-begin %s %d %s", hx.EncBool(c.server()), 8*c.ttlK+4, c.down), "ok")
 	if fb != nil {
 		fb.t0 = t0
 	}
 	idx := uint64(10)
-	mode := modeName(c.server)
+	mode := c.mode
 	for i := range c.ops {
 		op := &c.ops[i]
 		switch op.kind {
 		case "put":
 			idx++
-			if err := f.State().ACLTokenSet(idx, op.tok.build(t0)); err != nil {
+			tok := op.tok.build(t0)
+			if op.tok.secret == mgmtSecret {
+				tok.Policies = []structs.ACLTokenPolicyLink{{ID: mgmtPolicyID}}
+			}
+			var err error
+			if mode == "raft" {
+				err = env.RaftApply(structs.ACLTokenSetRequestType, &structs.ACLTokenBatchSetRequest{Tokens: structs.ACLTokens{tok}})
+			} else {
+				err = f.State().ACLTokenSet(idx, tok)
+			}
+			if err != nil {
 				panic(err)
 			}
 			emit("x-put "+op.tok.enc(), "ok")
 			continue
 		case "del":
 			idx++
-			acc := accOf[op.secret]
-			if err := f.State().ACLTokenDeleteByAccessor(idx, acc, nil); err != nil && !errors.Is(err, acl.ErrNotFound) {
+			var err error
+			if mode == "raft" {
+				err = env.RaftApply(structs.ACLTokenDeleteRequestType, &structs.ACLTokenBatchDeleteRequest{TokenIDs: []string{accOf[op.secret]}})
+			} else {
+				err = f.State().ACLTokenDeleteByAccessor(idx, accOf[op.secret], nil)
+			}
+			if err != nil && !errors.Is(err, acl.ErrNotFound) {
 				panic(err)
 			}
 			emit("x-del "+hx.EncS(op.secret), "ok")
-			res.tags = append(res.tags, "x:op:delete(reap)")
+			res.tags = append(res.tags, "x:op:delete")
 			continue
 		}
 		target := t0.Add(time.Duration(op.unit)*unit + unit/2)
@@ -323,54 +524,102 @@ func runXCase(c *xcase, x *xenv, t0 time.Time) (res xresult) {
 		}
 		if fb != nil {
 			fb.mu.Lock()
-			fb.op = op
+			fb.rounds, fb.linkCalls = op.rounds, 0
 			fb.mu.Unlock()
 		}
 		now := baseTick + 8*op.unit + 4
-		rpc := ""
-		if !c.server {
-			rpc = " " + op.rpc
-			if op.rpc == "found" {
-				rpc += " " + op.tok.enc()
-			}
+		script := ""
+		for _, rd := range op.rounds {
+			script += " " + rd.enc()
 		}
 		tb := time.Now()
 		var line, out string
 		switch op.kind {
 		case "res":
-			r, err := env.ResolveToken(op.secret)
-			line = fmt.Sprintf("x-res %d %s%s", now, hx.EncS(op.secret), rpc)
-			switch {
-			case err != nil && acl.IsErrNotFound(err):
-				out = "notfound"
-			case err != nil:
-				out = "err:" + strings.ReplaceAll(err.Error(), " ", "_")
-			case r.ACLIdentity != nil && r.ACLIdentity.ID() == "primary-dc-down":
-				out = "down " + hx.EncBool(r.Authorizer.ServiceWrite("web", nil) == acl.Allow)
-			default:
-				var g []string
-				for _, n := range grantNames {
-					if r.Authorizer.ServiceWrite(n, nil) == acl.Allow {
-						g = append(g, n)
+			line = fmt.Sprintf("x-res %d %s %s%s", now, op.ep, hx.EncS(op.secret), script)
+			if op.ep == "t" {
+				var r resolver.Result
+				var err error
+				if op.meta {
+					r, err = env.ResolveTokenAndDefaultMeta(op.secret)
+				} else {
+					r, err = env.ResolveToken(op.secret)
+				}
+				switch {
+				case err != nil && acl.IsErrNotFound(err):
+					out = "notfound"
+				case err != nil && acl.IsErrPermissionDenied(err):
+					out = "denied"
+				case err != nil:
+					out = "err:" + strings.ReplaceAll(err.Error(), " ", "_")
+				case r.ACLIdentity != nil && r.ACLIdentity.ID() == "primary-dc-down":
+					out = "down " + hx.EncBool(r.Authorizer.ServiceWrite("web", nil) == acl.Allow)
+				default:
+					var g []string
+					for _, n := range grantNames {
+						if r.Authorizer.ServiceWrite(n, nil) == acl.Allow {
+							g = append(g, n)
+						}
+					}
+					out = "granted " + hx.EncS(r.ACLIdentity.ID()) + " " + hx.EncSList(g)
+					// monitor: the identity that was honoured must not have expired before the call began
+					if tok, ok := r.ACLIdentity.(*structs.ACLToken); ok && expiredBefore(tok.ExpirationTime, tb) {
+						viol("expiry:expired-token-honoured:"+mode,
+							fmt.Sprintf("token %s expired %v before the call yet resolved to an authorizer granting %v (down policy %s, ttl %d units, link %d)",
+								tok.AccessorID, tb.Sub(*tok.ExpirationTime), g, c.down, c.ttlK, op.rounds0link()))
 					}
 				}
-				out = "granted " + hx.EncS(r.ACLIdentity.ID()) + " " + hx.EncSList(g)
-				// monitor: the identity that was honoured must not have expired before the call began
-				if tok, ok := r.ACLIdentity.(*structs.ACLToken); ok && tok.ExpirationTime != nil && !tok.ExpirationTime.IsZero() &&
-					tok.ExpirationTime.Before(tb) {
-					res.viol = append(res.viol, [2]string{"expiry:expired-token-honoured:" + mode,
-						fmt.Sprintf("token %s expired %v before the call yet resolved to an authorizer granting %v (down policy %s, ttl %d units)",
-							tok.AccessorID, tb.Sub(*tok.ExpirationTime), g, c.down, c.ttlK)})
+			} else {
+				var id structs.ACLIdentity
+				var err error
+				if op.ep == "p" {
+					id, err = env.ResolvePolicies(op.secret)
+				} else {
+					id, err = env.ResolveRoles(op.secret)
+				}
+				switch {
+				case err != nil && acl.IsErrNotFound(err):
+					out = "notfound"
+				case err != nil && consul.VerifIsRemoteError(err): // may wrap a permission-denied answer of the primary
+					out = "remote"
+				case err != nil && acl.IsErrPermissionDenied(err):
+					out = "denied"
+				case err != nil:
+					out = "err:" + strings.ReplaceAll(err.Error(), " ", "_")
+				case id == nil:
+					out = "err:nil-identity"
+				default:
+					out = "ok " + hx.EncS(id.ID())
+					if tok, ok := id.(*structs.ACLToken); ok && expiredBefore(tok.ExpirationTime, tb) {
+						viol("expiry:expired-token-honoured:"+mode+":"+op.ep, fmt.Sprintf("token %s expired %v before the call yet its %s were resolved",
+							tok.AccessorID, tb.Sub(*tok.ExpirationTime), map[string]string{"p": "policies", "r": "roles"}[op.ep]))
+					}
 				}
 			}
-			res.tags = append(res.tags, "x:"+mode+":"+strings.SplitN(out, " ", 2)[0])
+			res.tags = append(res.tags, "x:"+mode+":"+op.ep+":"+strings.SplitN(out, " ", 2)[0])
+			if fb != nil {
+				fb.mu.Lock()
+				res.tags = append(res.tags, fmt.Sprintf("x:link-rpcs-in-one-resolution=%d", fb.linkCalls))
+				if fb.bad != "" {
+					viol("expiry:harness-script", fb.bad)
+				}
+				fb.mu.Unlock()
+			}
 		case "mask":
 			got := env.Mask(op.secret, op.flag)
+			rpc := ""
+			if mode == "remote" {
+				rd := op.rounds[0]
+				rpc = " " + rd.rpc
+				if rd.rpc == "found" {
+					rpc += " " + rd.tok.enc()
+				}
+			}
 			line = fmt.Sprintf("x-mask %d %s %s%s", now, hx.EncS(op.secret), hx.EncBool(op.flag), rpc)
 			out = hx.EncBool(got)
 			if got && (op.secret == "" || op.secret == anonSecret || !op.flag) {
-				res.viol = append(res.viol, [2]string{"mask:filtered-flag-visible-without-token",
-					fmt.Sprintf("token %q, incoming flag %v: caller sees ResultsFilteredByACLs=true", op.secret, op.flag)})
+				viol("mask:filtered-flag-visible-without-token",
+					fmt.Sprintf("token %q, incoming flag %v: caller sees ResultsFilteredByACLs=true", op.secret, op.flag))
 			}
 			switch {
 			case op.secret == "":
@@ -380,8 +629,70 @@ func runXCase(c *xcase, x *xenv, t0 time.Time) (res xresult) {
 			default:
 				res.tags = append(res.tags, "x:mask:token->"+out)
 			}
+		case "read":
+			tok, err := env.TokenRead(op.secret)
+			line = fmt.Sprintf("x-read %d %s", now, hx.EncS(op.secret))
+			switch {
+			case err != nil && acl.IsErrNotFound(err):
+				out = "notfound"
+			case err != nil:
+				out = "err:" + strings.ReplaceAll(err.Error(), " ", "_")
+			default:
+				out = "found " + hx.EncS(tok.AccessorID)
+				if expiredBefore(tok.ExpirationTime, tb) {
+					viol("endpoint:token-read-returned-expired-token", fmt.Sprintf("ACL.TokenRead returned %s, expired %v before the call", tok.AccessorID, tb.Sub(*tok.ExpirationTime)))
+				}
+			}
+			res.tags = append(res.tags, "x:read:"+strings.SplitN(out, " ", 2)[0])
+		case "list":
+			stubs, err := env.TokenList(mgmtSecret)
+			line = fmt.Sprintf("x-list %d", now)
+			if err != nil {
+				out = "err:" + strings.ReplaceAll(err.Error(), " ", "_")
+				break
+			}
+			var acc []string
+			for _, s := range stubs {
+				acc = append(acc, s.AccessorID)
+				if expiredBefore(s.ExpirationTime, tb) {
+					viol("endpoint:token-list-returned-expired-token", fmt.Sprintf("ACL.TokenList returned %s, expired before the call", s.AccessorID))
+				}
+			}
+			sort.Strings(acc)
+			out = hx.EncSList(acc)
+			res.tags = append(res.tags, fmt.Sprintf("x:list:%d-of-%d-stored", len(acc), len(storedAccessors(f.State()))))
+		case "reap":
+			before := storedAccessors(f.State())
+			n, err := env.Reap()
+			if err != nil {
+				line, out = fmt.Sprintf("x-reap %d -", now), "err:"+strings.ReplaceAll(err.Error(), " ", "_")
+				break
+			}
+			after := storedAccessors(f.State())
+			var reaped []string
+			for a, t := range before {
+				if after[a] == nil {
+					reaped = append(reaped, a)
+					// monitor: the reaper deletes nothing that is still valid
+					if !expiredBefore(t.ExpirationTime, time.Now()) {
+						viol("reaper:deleted-unexpired-token", fmt.Sprintf("reaper deleted %s whose expiration %v is not in the past", a, t.ExpirationTime))
+					}
+				}
+			}
+			sort.Strings(reaped)
+			if n != len(reaped) {
+				viol("reaper:count-differs", fmt.Sprintf("reaper reported %d, %d tokens disappeared", n, len(reaped)))
+			}
+			// everything expired for more than a second (the index granularity) must be gone
+			for a, t := range after {
+				if t.ExpirationTime != nil && !t.ExpirationTime.IsZero() && t.ExpirationTime.Before(tb.Add(-1100*time.Millisecond)) {
+					viol("reaper:left-long-expired-token", fmt.Sprintf("%s expired more than a second ago and survived a reaper run", a))
+				}
+			}
+			line, out = fmt.Sprintf("x-reap %d %s", now, hx.EncSList(reaped)), "ok"
+			res.tags = append(res.tags, fmt.Sprintf("x:reap:deleted=%d", len(reaped)))
 		}
-		if !c.server && c.down == "async-cache" && op.secret != "" {
+		if mode == "remote" && c.down == "async-cache" && op.secret != "" {
 			env.WaitIdentityFetch(op.secret) // the background fetch stamps the cache entry: keep it inside the bracket
 		}
 		ta := time.Now()
@@ -392,20 +703,35 @@ func runXCase(c *xcase, x *xenv, t0 time.Time) (res xresult) {
 			return xresult{ok: false}
 		}
 		emit(line, out)
-		if op.tok.exp.kind == 2 || c.server {
-			res.tags = append(res.tags, fmt.Sprintf("x:unit=%d", op.unit))
-		}
+		res.tags = append(res.tags, fmt.Sprintf("x:unit=%d", op.unit))
 	}
 	res.ok = true
 	return
 }
 
+func (op *xop) rounds0link() int {
+	if len(op.rounds) > 0 {
+		return op.rounds[0].tok.link
+	}
+	return 0
+}
+
 func runExpiry(run *hx.Run) {
 	n := run.Scale(400, 4000)
-	cases := make([]*xcase, n)
-	for i := range cases {
-		cases[i] = genXCase(run.RNG.Fork(uint64(7_000_000 + i)))
+	nRaft := run.Scale(60, 500)
+	cases := make([]*xcase, 0, n+nRaft)
+	for i := 0; i < n; i++ {
+		r := run.RNG.Fork(uint64(7_000_000 + i))
+		mode := "remote"
+		if r.Chance(35) {
+			mode = "server"
+		}
+		cases = append(cases, genXCase(r, mode))
 	}
+	for i := 0; i < nRaft; i++ {
+		cases = append(cases, genXCase(run.RNG.Fork(uint64(9_000_000+i)), "raft"))
+	}
+	n = len(cases)
 	results := make([]xresult, n)
 	retries := make([]int, n)
 	todo := make([]int, n)
@@ -413,7 +739,7 @@ func runExpiry(run *hx.Run) {
 		todo[i] = i
 	}
 	const batch = 128
-	for round := 0; len(todo) > 0 && round < 200; round++ {
+	for round := 0; len(todo) > 0 && round < 400; round++ {
 		cur := todo
 		if len(cur) > batch {
 			cur = cur[:batch]
@@ -439,6 +765,7 @@ func runExpiry(run *hx.Run) {
 				defer wg.Done()
 				// staggered time lines: the calls of different cases do not pile up on one instant
 				results[i] = runXCase(cases[i], envs[k], t0.Add(time.Duration(k)*2500*time.Microsecond))
+				envs[k].close()
 			}(k, i)
 		}
 		wg.Wait()
@@ -468,7 +795,7 @@ func runExpiry(run *hx.Run) {
 			violate(run, v[0], v[1], ops)
 		}
 		c := cases[i]
-		run.Tag("x:mode:" + modeName(c.server))
+		run.Tag("x:mode:" + c.mode)
 		run.Tag("x:down:" + c.down)
 		run.Tag(fmt.Sprintf("x:ttl-units:%d", c.ttlK))
 		run.Case(strings.Join(ops, "\n"), true)
